@@ -54,6 +54,23 @@ Oracle    : every run's observation (captured stdout, returned exc_info type+mes
             ancestor directory of another.  Cache files are located by watching the data dir (new file
             after a cached run; xonsh's own name for a code string is only a first guess), so a repair
             that renames entries stays quiet.
+            (g) the source changes DURING a run: body kind 'selfedit' rewrites in place / atomically replaces
+            (temporary file + rename) / touches its own source file while it runs, leaving a generated new
+            body; the new mtime comes from the harness clock (two ticks are taken before the run: the first
+            for an entry written before the edit, the second for the edit).  Whether the entry written in
+            that run was written before or after the edit is read off the real clock (entry mtime against
+            the source's ctime, which utime cannot set) and the entry is placed on the harness clock
+            accordingly.  The uncached reference run edits the file as well; the harness puts it back.
+            Through script / rc / import entry points, every layout; drawn by the machine and in a fixed
+            family.  Child tier: op 'overlap' - a run that has announced itself waits while the source is
+            edited and run a second time to completion, then ends; then a third run.
+            (h) the file name of code at every nesting depth: bodies 'deep' (frames of a decorator wrapper,
+            a method, a lambda, comprehensions, a closure in a closure, a method of a nested class; a
+            recursive walk over the module's own code object; the frames of a handled traceback raised
+            three levels down; __code__ of a method) and 'deepraise' (unhandled exception through wrapper /
+            method / closure / lambda), op 'respell' (from now on the script is run by another spelling of
+            the same path), and the observation of a run now contains file name + line of EVERY frame of
+            a returned traceback (child processes: of the traceback printed on stderr).
 Known     : C19-F1 valid header + marshalled non-code object is executed / TypeError / None;
             C19-F2 an entry that cannot be opened (EACCES) is fatal; C19-F3 code entries are keyed by the
             text only, so an entry compiled for one mode is executed for another mode;
@@ -84,15 +101,20 @@ from vlib.common import Failure, Mismatch, Stats
 PROP = "C19"
 LEVEL = "exploration"
 HOOKS = False
-RULE = ("histories of init(path, layout, spelling) / edit(body, newer mtime) / touch / retarget(other file behind "
-        "the same name, its mtime) / run(switches, script|import|rc) / code(text, mode, switches) / corrupt(entry, how "
+RULE = ("histories of init(path, layout, spelling) / edit(body, newer mtime; incl. bodies that rewrite / replace / "
+        "touch their own source while they run and bodies that report the file name of code at every nesting depth) / "
+        "touch / retarget(other file behind the same name, its mtime) / respell(other spelling of the same path) / "
+        "run(switches, script|import|rc) / overlap(child tier: edit + complete run while an earlier run is still in "
+        "progress) / code(text, mode, switches) / corrupt(entry, how "
         "incl. one xor-ed byte of a valid entry) on one script name + one data dir under a harness-owned "
         "clock, drawn by a Hypothesis state machine (in-process and, sampled, with child processes); plus a fixed "
-        "family of path-identity histories; plus every truncation length 0..len and every offset x single-bit mask "
+        "family of path-identity, self-edit and spelling histories; plus every truncation length 0..len and every "
+        "offset x single-bit mask "
         "of a fixed list of entries (complete); plus pairs of confusable "
         "paths / code strings for the cache-name functions. non-trivial = the history contains a run with "
         "the cache consulted while an entry exists that is stale (edit or touch after it was written) or "
-        "corrupted, or right after the name was re-pointed to a file that is not newer than an existing entry / "
+        "corrupted, or right after the name was re-pointed to a file that is not newer than an existing entry, or "
+        "right after a run during which the source changed / "
         "for a truncation case: length < len / for a byte-damage case: the unmarshaller rejects the damaged body or "
         "returns a non-code object (so it was written and run) / for a pair: distinct members that both contain "
         "an escaped character or share a 16-char prefix; distinct = hash of the operation list / (entry, "
@@ -165,7 +187,99 @@ def render_body(kind, tok):
     if kind == "big":
         return "".join("w_%d = ('%s', %d, %r)\n" % (i, tok, i * 7919, "x" * (i % 9)) for i in range(48)) + \
             "print(w_47)\n"
+    if kind == "deep":
+        return DEEP_BODY.replace("TOK", tok)
+    if kind == "deepraise":
+        return DEEPRAISE_BODY.replace("TOK", tok)
+    if kind == "wait":
+        return WAIT_BODY.replace("TOK", tok)
     raise common.HarnessError("unknown body kind %r" % (kind,))
+
+
+# The file name a code object carries is observable at every nesting depth: frames of methods, closures,
+# lambdas, decorator wrappers, (inlined or not) comprehensions; a walk over the module's own code object; the
+# frames of a traceback raised three levels down.  Uncached, every one of them is the name the script was run by.
+DEEP_BODY = """import sys as s_
+def rep_():
+    return s_._getframe(1).f_code.co_filename == __file__
+def wrap_(f):
+    def inner_(*a):
+        return [rep_()] + f(*a)
+    return inner_
+class D_:
+    class N_:
+        def mm(self):
+            return [rep_()] + [x for x in (lambda: [rep_()])()]
+    @wrap_
+    def m(self, k):
+        g = lambda: [rep_()] + [rep_() for _ in range(k)] + list(rep_() for _ in range(k))
+        def n_():
+            def nn_():
+                return [rep_()] + D_.N_().mm()
+            return [rep_()] + nn_()
+        return [rep_()] + g() + n_()
+def walk_(c):
+    return [c.co_filename == __file__] + [b for k in c.co_consts if hasattr(k, 'co_consts') for b in walk_(k)]
+def boom_():
+    def in_():
+        raise KeyError('TOK')
+    return (lambda: in_())()
+v_tok = 'TOK'
+print(v_tok, rep_(), D_().m(1))
+print(walk_(s_._getframe().f_code))
+try:
+    boom_()
+except KeyError as e_:
+    tb_, fr_ = e_.__traceback__, []
+    while tb_ is not None:
+        fr_.append((tb_.tb_frame.f_code.co_filename == __file__, tb_.tb_lineno))
+        tb_ = tb_.tb_next
+    print(fr_)
+    del tb_, fr_
+print(D_.m.__code__.co_filename == __file__, [k.co_filename == __file__ for k in boom_.__code__.co_consts if hasattr(k, 'co_consts')])
+"""
+DEEPRAISE_BODY = """print('TOK')
+def deco_(f):
+    def w_(*a):
+        return f(*a)
+    return w_
+class E_:
+    @deco_
+    def m(self):
+        def n_():
+            return (lambda: undefined_deep_name + 'TOK')()
+        return n_()
+E_().m()
+print('not reached')
+"""
+# a script that is still running while something else happens (child tier): announces itself, then waits
+WAIT_BODY = """import os as o_, time as t_
+print('TOK start')
+open(o_.environ['VERIF_FLAG'], 'w').close()
+while not o_.path.exists(o_.environ['VERIF_GO']):
+    t_.sleep(0.01)
+print('TOK end')
+"""
+DEEP_KINDS = ("deep", "deepraise", "where", "klass", "func")
+SELFEDIT_NEW_KINDS = ["print", "both", "func", "raise", "exit", "deep", "unicode", "nonl"]
+
+
+def render_selfedit(tok, newtext, how):
+    """A script that changes its own source file while it runs: rewrite in place / atomic replace (temporary file +
+    rename) / touch only.  The new mtime comes from the harness clock ($VERIF_T); the pause afterwards keeps anything
+    written *after* the run apart from the edit on a file system with coarse time stamps."""
+    head = "import os as o_, time as t_\nprint('%s')\np_ = o_.path.realpath(__file__)\n" % tok
+    if how == "rewrite":
+        mid = "with open(p_, 'w', encoding='utf-8') as f_:\n    f_.write(%r)\ndel f_\n" % newtext
+    elif how == "replace":
+        mid = ("with open(p_ + '.new', 'w', encoding='utf-8') as f_:\n    f_.write(%r)\ndel f_\n"
+               "o_.replace(p_ + '.new', p_)\n" % newtext)
+    elif how == "touch":
+        mid = ""
+    else:
+        raise common.HarnessError("unknown self-edit %r" % (how,))
+    return head + mid + ("o_.utime(p_, (int(o_.environ['VERIF_T']),) * 2)\nt_.sleep(float(o_.environ.get('VERIF_PAUSE') or 0))\n"
+                         "del o_, t_, p_\n")
 
 
 def body_shows_token(kind):
@@ -522,8 +636,11 @@ def _exc_view(tp, val, tb):
         return None
     where = None
     last = None
+    frames = []
     while tb is not None:
         last = tb
+        # every frame of the traceback names a file: uncached, the script's frames name the path it was run by
+        frames.append([tb.tb_frame.f_code.co_filename, tb.tb_lineno, tb.tb_frame.f_code.co_name])
         tb = tb.tb_next
     if last is not None:
         where = [os.path.basename(last.tb_frame.f_code.co_filename), last.tb_lineno]
@@ -534,7 +651,9 @@ def _exc_view(tp, val, tb):
         where = None
     else:
         msg = str(val)
-    return {"type": tp.__name__, "msg": msg[:300], "where": where}
+    if issubclass(tp, SyntaxError):
+        frames = []
+    return {"type": tp.__name__, "msg": msg[:300], "where": where, "frames": frames[-12:]}
 
 
 def observe(fn, glb):
@@ -571,7 +690,7 @@ def observe(fn, glb):
 
 
 def same_obs(a, b):
-    return all(a.get(k) == b.get(k) for k in ("returned", "raised", "stdout", "ns", "rc", "loaded"))
+    return all(a.get(k) == b.get(k) for k in ("returned", "raised", "stdout", "ns", "rc", "loaded", "frames"))
 
 
 def rc_view(ref):
@@ -597,7 +716,7 @@ def rc_view(ref):
 
 def obs_diff(a, b):
     out = []
-    for k in ("raised", "returned", "stdout", "rc", "loaded", "ns"):
+    for k in ("raised", "returned", "stdout", "rc", "loaded", "frames", "ns"):
         if a.get(k) != b.get(k):
             out.append("%s: got %r, uncached reference %r" % (k, a.get(k), b.get(k)))
     return "; ".join(out)
@@ -664,6 +783,7 @@ def child_env(data_dir, sw_env):
     e["VERIF_REPO"] = common.REPO
     e["XONSH_DATA_DIR"] = data_dir
     e["PATH"] = "/usr/bin:/bin"
+    e["XONSH_SHOW_TRACEBACK"] = "1"      # the traceback's file names are part of what a run shows
     e.pop("XONSH_CACHE_SCRIPTS", None)
     e.pop("XONSH_CACHE_EVERYTHING", None)
     for k, v in sw_env.items():
@@ -672,20 +792,32 @@ def child_env(data_dir, sw_env):
     return e
 
 
+def child_cmd(args):
+    shim = FAST_SHIM % _state["tabledir"] if _state.get("tabledir") else CHILD_SHIM % common.VERIF
+    return [sys.executable, "-c", shim, "--no-rc"] + list(args)
+
+
+def child_obs(returncode, out, err):
+    import re
+
+    if returncode == -9:
+        raise common.HarnessError("a child xonsh process was killed with SIGKILL from outside (out of memory?)")
+    err = err.decode("utf-8", "replace")
+    # the files named by the traceback(s) the child printed, xonsh's own frames left out
+    frames = [[f, int(n)] for f, n in re.findall(r'File "([^"\n]+)", line (\d+)', err)
+              if not os.path.abspath(f).startswith(common.REPO + os.sep) and "/lib/python" not in f]
+    return {"stdout": out.decode("utf-8", "replace"), "rc": returncode, "frames": frames[-12:], "_stderr": err[-3000:]}
+
+
 def run_child(args, data_dir, sw_env, cwd, stdin_text=None):
     os.makedirs(data_dir, exist_ok=True)
-    shim = FAST_SHIM % _state["tabledir"] if _state.get("tabledir") else CHILD_SHIM % common.VERIF
-    cmd = [sys.executable, "-c", shim, "--no-rc"] + list(args)
     try:
-        r = subprocess.run(cmd, env=child_env(data_dir, sw_env), cwd=cwd, capture_output=True, timeout=120,
+        r = subprocess.run(child_cmd(args), env=child_env(data_dir, sw_env), cwd=cwd, capture_output=True, timeout=120,
                            input=(stdin_text.encode() if stdin_text is not None else None),
                            stdin=(subprocess.DEVNULL if stdin_text is None else None))
     except subprocess.TimeoutExpired:
         raise common.HarnessError("a child xonsh process did not finish within 120 s: %r" % (args,))
-    if r.returncode == -9:
-        raise common.HarnessError("a child xonsh process was killed with SIGKILL from outside (out of memory?)")
-    return {"stdout": r.stdout.decode("utf-8", "replace"), "rc": r.returncode,
-            "_stderr": r.stderr.decode("utf-8", "replace")[-3000:]}
+    return child_obs(r.returncode, r.stdout, r.stderr)
 
 
 def run_child_limited(args, data_dir, sw_env, cwd, outdir):
@@ -757,6 +889,8 @@ class History:
         self.last_entry_time = None     # logical mtime of the script entry stamped most recently (any target)
         self.after_retarget = None      # (mtime choice, target had been run before) until the next run
         self.flip_class = None          # class of the most recent byte flip (for the enumeration's labels)
+        self.pending = None             # (how, new text, new kind, new token): what the current body does to its own file
+        self.after_selfedit = False     # the source was changed by the run before this one, while it ran
         self.code_of = {}               # (text, mode) -> cache file, once learned
         self.files = {}                 # cache file -> dict(text, file, stamp, corrupt, written_mode)
         self.guesses = {}               # file name xonsh's functions give -> text
@@ -817,6 +951,10 @@ class History:
             return self.op_corrupt(op)
         if name == "retarget":
             return self.op_retarget(op)
+        if name == "respell":
+            return self.op_respell(op)
+        if name == "overlap":
+            return self.op_overlap(op)
         raise common.HarnessError("unknown op %r" % (op,))
 
     def op_init(self, op):
@@ -886,7 +1024,7 @@ class History:
         os.utime(link, (BASE_TIME - 5000, BASE_TIME - 5000), follow_symlinks=False)
 
     ALT_KEYS = ("script_text", "script_kind", "script_tok", "last_change", "entry_path", "entry_stamp", "entry_corrupt",
-                "entry_fn")
+                "entry_fn", "pending", "after_selfedit")
 
     def op_retarget(self, op):
         """The script's *name* now resolves to another file (link re-pointed: release roll-back / roll-forward,
@@ -916,11 +1054,11 @@ class History:
             self.edits += 1
             kind = op.get("kind") or "print"
             tok = "K%dx%s" % (self.edits, op.get("salt", ""))
-            text = render_body(kind, tok)
+            text, pending = self.render(op, kind, tok)
             with open(target, "w", encoding="utf-8") as f:
                 f.write(text)
             state = dict(script_text=text, script_kind=kind, script_tok=tok, last_change="edit", entry_path=None,
-                         entry_stamp=None, entry_corrupt=None, entry_fn=None)
+                         entry_stamp=None, entry_corrupt=None, entry_fn=None, pending=pending, after_selfedit=False)
             if how == "keep":
                 how = "older"
         for k in self.ALT_KEYS:
@@ -947,18 +1085,161 @@ class History:
         self.after_retarget = (how, known)
         self.lab("retarget:%s:%s:%s" % (self.layout, how, "seen-target" if known else "new-target"))
 
+    def render(self, op, kind, tok):
+        """-> (text, pending).  kind 'selfedit': the body changes its own source file while it runs - op['how'] in
+        rewrite / replace / touch, op['new'] the kind of the body it leaves behind."""
+        if kind != "selfedit":
+            return render_body(kind, tok), None
+        how = op.get("how") or "rewrite"
+        if how == "touch":
+            text = render_selfedit(tok, None, how)
+            return text, (how, text, kind, tok)
+        self.edits += 1
+        newkind = op.get("new") or "print"
+        if newkind not in SELFEDIT_NEW_KINDS:
+            raise common.HarnessError("self-edit leaves an unknown kind %r" % (newkind,))
+        newtok = "K%dx%s" % (self.edits, op.get("salt", ""))
+        newtext = render_body(newkind, newtok)
+        return render_selfedit(tok, newtext, how), (how, newtext, newkind, newtok)
+
     def op_edit(self, op):
         self.edits += 1
         kind = op["kind"]
         tok = "K%dx%s" % (self.edits, op.get("salt", ""))
-        text = render_body(kind, tok)
+        text, self.pending = self.render(op, kind, tok)
         with open(self.script, "w", encoding="utf-8") as f:
             f.write(text)
         t = self.tick()
         os.utime(self.script, (t, t))
         self.script_text, self.script_kind, self.script_tok = text, kind, tok
         self.last_change = "edit"
-        self.lab("edit:" + kind)
+        self.after_selfedit = False
+        self.lab("edit:" + kind + (":" + self.pending[0] if self.pending else ""))
+
+    def op_respell(self, op):
+        """From now on the script is run by another spelling of the same path."""
+        if self.script_text is None:
+            return self.ops.pop()
+        spell = op["spell"]
+        if spell not in ("abs", "rel", "dotdot"):
+            raise common.HarnessError("unknown spelling %r" % (spell,))
+        if self.layout == "cwd" and spell == "abs":
+            spell = "dotdot" if self.spell == "rel" else "rel"
+        if spell == self.spell:
+            return self.ops.pop()
+        op["spell"] = self.spell = spell
+        self.lab("respell:" + spell)
+
+    def op_overlap(self, op):
+        """Child tier: a run of the script is still in progress (it has announced itself and waits) while the source
+        is edited and run a second time to completion; then the first run ends; then a third run.  Every run must
+        equal the uncached run of the source as it was when that run started."""
+        if self.backend != "proc" or self.script_text is None:
+            return self.ops.pop()
+        import time
+
+        sw = list(op["sw"])
+        self.nover = getattr(self, "nover", 0) + 1
+        flag, go = (os.path.join(self.root, "%s%d" % (n, self.nover)) for n in ("flag", "go"))
+        os.environ["VERIF_FLAG"], os.environ["VERIF_GO"] = flag, go
+        self.op_edit({"op": "edit", "kind": "wait"})
+        wait_tok = self.script_tok
+        fn = self.spelling()
+        with open(go, "w"):
+            pass
+        ref_w = self.reference(("proc-script", self.script_text, fn), lambda: self.proc_ref([fn]))
+        os.remove(go)
+        if os.path.exists(flag):
+            os.remove(flag)
+        flags, envsw = self.proc_switches(sw)
+        os.makedirs(self.data, exist_ok=True)
+        p = subprocess.Popen(child_cmd(flags + [fn]), env=child_env(self.data, envsw), cwd=self.cwd(),
+                             stdin=subprocess.DEVNULL, stdout=subprocess.PIPE, stderr=subprocess.PIPE)
+        try:
+            t0 = time.time()
+            while not os.path.exists(flag) and p.poll() is None:
+                if time.time() - t0 > 120:
+                    raise common.HarnessError("the overlapped child run did not announce itself within 120 s")
+                time.sleep(0.02)
+            # the first run has read its source (and, if it stores the entry before running, stored it)
+            self.settle_entry(fn)
+            self.op_edit({"op": "edit", "kind": op.get("kind") or "print"})
+            self.op_run({"op": "run", "sw": sw})
+            with open(go, "w"):
+                pass
+            try:
+                out, err = p.communicate(timeout=120)
+            except subprocess.TimeoutExpired:
+                raise common.HarnessError("the overlapped child run did not end within 120 s")
+        finally:
+            if p.poll() is None:
+                p.kill()
+                p.communicate()
+        obs_w = child_obs(p.returncode, out, err)
+        if not same_obs(obs_w, ref_w):
+            self.bad("overlapped-run-differs", "the run that was in progress while the source was edited: %s"
+                     % obs_diff(obs_w, ref_w))
+        self.settle_entry(fn)
+        self.lab("overlap:" + ("cache-on" if use_cache_formula(sw, "exec") else "cache-off"))
+        if use_cache_formula(sw, "exec"):
+            self.nontrivial = True
+        self.after_selfedit = True          # the third run comes after a change during a run, too
+        self.old_tok = wait_tok
+        self.op_run({"op": "run", "sw": sw})
+
+    def settle_entry(self, fn):
+        """Put a script entry that has been (re)written on the harness clock."""
+        path = self.find_entry()
+        self.entry_stamp, rewritten = self.stamp(path, self.entry_stamp)
+        if rewritten:
+            self.entry_corrupt = None
+            self.entry_fn = fn
+        if path is not None and self.entry_stamp is not None:
+            self.last_entry_time = max(self.last_entry_time or 0, self.entry_stamp // 10 ** 9)
+
+    # -- a source that changes while it runs --------------------------------------------------------
+    def arm_selfedit(self):
+        """Before a run of a self-editing body: the mtime it will give its file, from the harness clock (two ticks:
+        the first is kept free for a cache entry written *before* the edit)."""
+        if self.pending is None:
+            return None
+        self.tick()
+        t = self.tick()
+        os.environ["VERIF_T"] = str(t)
+        os.environ["VERIF_PAUSE"] = "0"         # (set to a few ms for the real run, not for the reference)
+        return t
+
+    def snapshot(self):
+        return (self.script_text, os.stat(self.script).st_mtime_ns)
+
+    def restore(self, snap):
+        """The uncached *reference* run of a self-editing body has edited the file, too: put it back."""
+        text, ns = snap
+        with open(self.script, encoding="utf-8") as f:
+            now = f.read()
+        if now != text or os.stat(self.script).st_mtime_ns != ns:
+            with open(self.script, "w", encoding="utf-8") as f:
+                f.write(text)
+            os.utime(self.script, ns=(ns, ns))
+
+    def absorb_selfedit(self, t):
+        """After a run of a self-editing body: did it happen?  -> True when the file now is what the body leaves."""
+        if self.pending is None or t is None:
+            return False
+        how, newtext, newkind, newtok = self.pending
+        with open(self.script, encoding="utf-8") as f:
+            now = f.read()
+        if now == self.script_text and int(os.stat(self.script).st_mtime) != t:
+            return False            # the body did not get as far as its edit (or did not run at all)
+        if now != newtext or int(os.stat(self.script).st_mtime) != t:
+            raise common.HarnessError("after a self-editing run the source is neither the old nor the new text")
+        self.script_text, self.script_kind, self.script_tok = newtext, newkind, newtok
+        if how != "touch":
+            self.pending = None
+        self.last_change = "edit-during-run" if how != "touch" else "touch-during-run"
+        self.after_selfedit = True
+        self.lab("source-changed-during-run:" + how)
+        return True
 
     def op_touch(self, op):
         if self.script_text is None:
@@ -992,9 +1273,9 @@ class History:
             return "stale-after-" + self.last_change
         return "fresh"
 
-    def stamp(self, path, old_stamp):
+    def stamp(self, path, old_stamp, at=None):
         """After a run: a cache file whose mtime is not the one we gave it was (re)written - give it
-        the next logical time.  Returns (new stamp, rewritten?)."""
+        the next logical time (or `at`).  Returns (new stamp, rewritten?)."""
         if path is None:
             return old_stamp, False
         try:
@@ -1005,7 +1286,7 @@ class History:
             return old_stamp, False
         if old_stamp is not None and s.st_mtime_ns == old_stamp:
             return old_stamp, False
-        t = self.tick()
+        t = self.tick() if at is None else at
         os.utime(path, (t, t))
         return os.lstat(path).st_mtime_ns, True
 
@@ -1117,8 +1398,14 @@ class History:
         if F5 in self.open and self.script_kind == "where" and on and cond == "fresh" \
                 and self.entry_fn not in (None, eff_fn):
             return self.exclude(F5)
+        t_self = self.arm_selfedit()
+        snap = self.snapshot() if self.pending is not None else None
+        was_selfedit, self.after_selfedit = self.after_selfedit, False
         if self.backend == "proc":
             ref = self.reference(("proc-script", text, fn), lambda: self.proc_ref([fn]))
+            if snap is not None:
+                self.restore(snap)
+                os.environ["VERIF_PAUSE"] = "0.005"
             flags, envsw = self.proc_switches(sw)
             obs = run_child(flags + [fn], self.data, envsw, self.cwd())
         else:
@@ -1154,6 +1441,9 @@ class History:
                                                lambda: ref_observe(text, _fn, "exec", self.script_ns(via, _fn)))
                 if via == "rc":
                     ref = rc_view(raw_ref)
+                if snap is not None:
+                    self.restore(snap)
+                    os.environ["VERIF_PAUSE"] = "0.005"
                 set_switches(sw)
                 try:
                     obs = observe(call, glb)
@@ -1182,13 +1472,33 @@ class History:
                                                      "cache-on" if on else "cache-off"))
             if on and hot:
                 self.nontrivial = True
+        if was_selfedit:
+            self.lab("run-after-source-changed-during-run:%s:%s" % (cond, "cache-on" if on else "cache-off"))
+            if on:
+                self.nontrivial = True
         corrupt = self.entry_corrupt
+        self.ran_after_selfedit = was_selfedit
         if not same_obs(obs, ref):
             self.fail_run(op, obs, ref, cond, corrupt, None)
         if raw_ref is not None:
             ref = raw_ref
+        old_tok = self.script_tok
+        inrun = self.absorb_selfedit(t_self)
+        if inrun:
+            self.old_tok = old_tok
         path = self.find_entry()
-        self.entry_stamp, rewritten = self.stamp(path, self.entry_stamp)
+        at = None
+        if inrun and path is not None and os.path.isfile(path) and not os.path.islink(path) \
+                and os.lstat(path).st_mtime_ns != self.entry_stamp \
+                and os.lstat(path).st_mtime_ns <= os.stat(self.script).st_ctime_ns:
+            # the entry was (re)written in this run *before* the body changed the source (real clock: the
+            # entry's mtime against the source's ctime, which utime cannot set): on the harness clock it
+            # goes right before the edit.  An entry written after the edit gets the next tick as always.
+            at = t_self - 1
+        self.entry_stamp, rewritten = self.stamp(path, self.entry_stamp, at=at)
+        if inrun:
+            self.lab("entry-vs-edit-during-run:" + ("none-written" if not rewritten else
+                                                    "written-before" if at is not None else "written-after"))
         if rewritten:
             self.entry_corrupt = None
             self.entry_fn = fn
@@ -1202,9 +1512,9 @@ class History:
                 and not (corrupt[0] == "header" and corrupt[1] == "sibling-tag") \
                 and not (corrupt[0] == "trunc" and corrupt[3]) \
                 and not (corrupt[0] == "hflip" and corrupt[4] == "header-blank"):
-            self.check_rebuilt(path, corrupt, ref, via)
+            self.check_rebuilt(path, corrupt, ref, via, no_exec=inrun or self.pending is not None)
 
-    def check_rebuilt(self, path, corrupt, ref, via, code_mode=None, text=None):
+    def check_rebuilt(self, path, corrupt, ref, via, code_mode=None, text=None, no_exec=False):
         what = "%s(%s)" % (corrupt[0], corrupt[1]) + (" = marshal: %s" % corrupt[4] if len(corrupt) > 4 else "")
         if path is None or not os.path.isfile(path):
             self.bad("not-rebuilt", "after a cached run over a corrupted entry [%s] there is no entry file" % what,
@@ -1213,8 +1523,8 @@ class History:
         if not ok:
             self.bad("not-rebuilt", "after a cached run over the corrupted entry [%s] the entry file %s" % (what, why),
                      bucket="not-rebuilt:" + corrupt[0])
-        if self.backend == "proc":
-            return
+        if self.backend == "proc" or no_exec:
+            return          # (a body that edits its own file is not run a second time by the harness)
         # the rebuilt entry must be the compilation of the *current* source
         if code_mode is None:
             glb = self.script_ns(via, self.last_fn)
@@ -1240,6 +1550,13 @@ class History:
                  and a["script_tok"] and a["script_tok"] in shown and a["script_tok"] not in (self.script_tok or "")]
         kind = "foreign-entry-executed" if executed else "fatal" if fatal else \
             "other-file-executed" if other else "stale-result" if cond.startswith("stale") else "result-differs"
+        if getattr(self, "ran_after_selfedit", False) and op["op"] == "run" and getattr(self, "old_tok", None) \
+                and self.old_tok in shown and self.old_tok not in (self.script_tok or "") and not executed and corrupt is None:
+            kind = "change-during-run-lost"
+            cond = "source-changed-while-the-caching-run-was-in-progress(%s)" % cond
+        if corrupt is None and op["op"] == "run" and self.script_kind in DEEP_KINDS and not fatal \
+                and kind == "result-differs" and self.entry_fn not in (None, self.last_fn):
+            kind = "cached-code-keeps-old-spelling"
         if kind == "other-file-executed":
             cond = "%s-name-re-pointed(now t%d, shows the token of t%d)" % (self.layout, self.cur, other[0])
         finding = None
@@ -1993,11 +2310,88 @@ IDENT_PROC = [
 ]
 
 
+def selfedit_family(tier):
+    """[(label, ops)]: the script changes its own source while it runs - how x layout x entry point x switches."""
+    out = []
+    i = 0
+    names = [["tool.xsh"], ["Dir A", "sub.d", "My_Script.V2.xsh"], ["rc.d", "init_rc.xsh"], ["run.py"], ["noext"]]
+    news = ["both", "deep", "raise", "func", "exit", "nonl"]
+    for how in ("rewrite", "replace"):
+        for layout in (None, "top", "file", "dir", "cwd"):
+            for via in ("script", "rc", "import"):
+                for sw in (DEFAULTS, ALL_ON):
+                    i += 1
+                    if tier != "thorough" and i % 2:
+                        continue
+                    nm = names[(i // 2) % len(names)]
+                    r = {"op": "run", "sw": list(sw), "via": via}
+                    e = {"op": "edit", "kind": "selfedit", "how": how}
+                    ops = [{"op": "init", "path": nm, "layout": layout, "spell": ["abs", "rel", "dotdot"][i % 3], "rellink": bool(i % 2)},
+                           dict(e, new=news[i % 6]), dict(r), dict(r), dict(r),             # generation 1 -> 2, then hits
+                           dict(e, new=news[(i + 1) % 6]), dict(r, sw=list(ALL_OFF)), dict(r), dict(r),   # changed by an uncached run
+                           dict(e, new=news[(i + 2) % 6]), {"op": "touch"}, dict(r), dict(r),
+                           {"op": "corrupt", "how": "trunc", "arg": 30}, dict(r),
+                           dict(e, how="touch"), dict(r), dict(r)]
+                    out.append(("selfedit:%s:%s:%s:%s" % (how, layout or "plain", via, "all-on" if sw == ALL_ON else "defaults"), ops))
+    return out
+
+
+def spelling_family(tier):
+    """[(label, ops)]: a cache hit under another spelling of the script's path than the one the entry was written
+    under, with bodies that look at the file name of code at every nesting depth."""
+    out = []
+    i = 0
+    pairs = [("script", "script"), ("script", "import"), ("rc", "script"), ("import", "rc"), ("script", "rc"), ("import", "script")]
+    orders = [("rel", "abs", "dotdot"), ("abs", "rel", "dotdot"), ("dotdot", "abs", "rel"), ("rel", "dotdot", "abs")]
+    for layout in (None, "top", "file", "dir", "cwd"):
+        for kind in ("deep", "deepraise", "klass"):
+            for v1, v2 in pairs:
+                i += 1
+                if tier != "thorough" and kind == "klass" and i % 3:
+                    continue
+                s1, s2, s3 = orders[i % len(orders)]
+                ops = [{"op": "init", "path": [["tool.xsh"], ["pkg.d", "Mod_a.xsh"]][i % 2], "layout": layout, "spell": s1,
+                        "rellink": bool(i % 2)},
+                       {"op": "edit", "kind": kind}, {"op": "run", "sw": list(ALL_ON), "via": v1},
+                       {"op": "respell", "spell": s2}, {"op": "run", "sw": list(DEFAULTS), "via": v2},
+                       {"op": "respell", "spell": s3}, {"op": "run", "sw": list(ALL_ON), "via": v1},
+                       {"op": "run", "sw": list(DEFAULTS), "via": "import"}, {"op": "run", "sw": list(DEFAULTS), "via": v2}]
+                out.append(("spelling:%s:%s:%s-%s" % (layout or "plain", kind, v1, v2), ops))
+    return out
+
+
+def proc2_family(tier):
+    D = list(DEFAULTS)
+    r = {"op": "run", "sw": D}
+    fam = [
+        ("proc:overlap:plain", [{"op": "init", "path": ["tool.xsh"], "layout": None, "spell": "rel"}, {"op": "edit", "kind": "print"},
+                                dict(r), {"op": "overlap", "sw": D, "kind": "both"}]),
+        ("proc:selfedit+spelling:plain", [{"op": "init", "path": ["proj", "tool.xsh"], "layout": None, "spell": "rel"},
+                                          {"op": "edit", "kind": "selfedit", "how": "replace", "new": "deep"}, dict(r), dict(r),
+                                          {"op": "respell", "spell": "abs"}, dict(r),
+                                          {"op": "edit", "kind": "deepraise"}, dict(r), {"op": "respell", "spell": "dotdot"}, dict(r)]),
+    ]
+    if tier == "thorough":
+        fam += [
+            ("proc:overlap:dir", [{"op": "init", "path": ["app.xsh"], "layout": "dir", "spell": "abs"}, {"op": "edit", "kind": "both"},
+                                  dict(r), {"op": "overlap", "sw": D, "kind": "deep"}, {"op": "overlap", "sw": [1, 1, 1, 1], "kind": "print"}]),
+            ("proc:selfedit:cwd", [{"op": "init", "path": ["tool.xsh"], "layout": "cwd", "spell": "rel"},
+                                   {"op": "edit", "kind": "selfedit", "how": "rewrite", "new": "both"}, dict(r), dict(r), dict(r)]),
+        ]
+    return fam
+
+
 def worker_ident(arg):
     which, tier, scratch, open_ids, tabledir = arg
     _setup(scratch, tabledir)
     st = Stats()
-    if which == "proc":
+    if which == "proc2":
+        fam = proc2_family(tier)
+        backend = "proc"
+    elif which == "dyn":
+        fam = selfedit_family(tier) + spelling_family(tier)
+        backend = "inproc"
+    elif which == "proc":
         fam = []
         for layout, spell, mt, nm in IDENT_PROC[: 3 if tier == "thorough" else 2]:
             r = {"op": "run", "sw": list(DEFAULTS)}
@@ -2013,7 +2407,8 @@ def worker_ident(arg):
     seen = set()
     for label, ops in fam:
         f = check_history({"ops": ops, "backend": backend}, open_ids, stats=st)
-        st.case(("ident", label), True, ["ident-history:" + backend, "ident:" + label.split(":")[1 if backend == "proc" else 0]],
+        st.case(("ident", label), True, ["ident-history:" + backend, "ident:" + label.split(":")[1 if backend == "proc" else 0],
+                                         "fixed-history:" + which],
                 sample={"family": label, "ops": ops[:6]} if len(seen) < 1 else None, max_per_label=1)
         if f is not None and f.bucket not in seen:
             seen.add(f.bucket)
@@ -2046,7 +2441,9 @@ def make_machine(backend):
     on_sws = st.one_of(st.just(ALL_ON), st.just(ALL_ON), st.just(DEFAULTS), st.lists(bit, min_size=4, max_size=4))
     code_sws = st.one_of(st.just(ALL_ON), st.just(ALL_ON), st.just([1, 1, 1, 0]), st.just([1, 0, 1, 1]),
                          st.lists(bit, min_size=4, max_size=4))
-    kinds = st.sampled_from(SCRIPT_KINDS)
+    kinds = st.sampled_from(SCRIPT_KINDS + ["deep", "deep", "deepraise"])
+    selfhows = st.sampled_from(["rewrite", "rewrite", "replace", "replace", "touch"])
+    newkinds = st.sampled_from(SELFEDIT_NEW_KINDS)
     vias = st.sampled_from(["script", "script", "script", "import", "import", "rc"])
     layouts = st.sampled_from([None, None, "top", "file", "dir", "cwd"])
     spells = st.sampled_from(["abs", "abs", "rel", "dotdot"])
@@ -2126,6 +2523,21 @@ def make_machine(backend):
             self.do(dict(c, sw=list(ALL_ON)),
                     {"op": "corrupt", "target": "code", "kind": k, "tok": t, "mode": m, "how": f[0], "arg": list(f[1])},
                     dict(c))
+
+        @rule(how=selfhows, new=newkinds, sw=on_sws, via=vias, sw2=on_sws, via2=vias)
+        def selfedit(self, how, new, sw, via, sw2, via2):
+            # a body that changes its own source file while it runs; the next run must run what it left
+            self.do({"op": "edit", "kind": "selfedit", "how": how, "new": new}, {"op": "run", "sw": list(sw), "via": via},
+                    {"op": "run", "sw": list(sw2), "via": via2})
+
+        @rule(spell=st.sampled_from(["abs", "rel", "dotdot"]), sw=on_sws, via=vias)
+        def respell(self, spell, sw, via):
+            self.do({"op": "respell", "spell": spell}, {"op": "run", "sw": list(sw), "via": via})
+
+        if backend == "proc":
+            @rule(k=st.sampled_from(["print", "both", "deep", "exit"]), sw=st.sampled_from([DEFAULTS, DEFAULTS, ALL_ON]))
+            def overlap(self, k, sw):
+                self.do({"op": "overlap", "sw": list(sw), "kind": k})
 
         @rule(k=kinds, sw=st.one_of(st.none(), on_sws), via=vias)
         def edit(self, k, sw, via):
@@ -2264,13 +2676,13 @@ def main(run):
         nprocs = max(1, min(nprocs, int(os.environ.get("VERIF_PROCS") or nprocs)))
     except ValueError:
         pass
-    n_in, n_proc, n_tr, n_fl = (8, 3, 2, 3) if quick else (11, 3, 4, 12)
-    per_in = run.n(110, 2500)
-    per_proc = run.n(4, 60)
+    n_in, n_proc, n_tr, n_fl = (8, 4, 2, 3) if quick else (11, 3, 4, 12)
+    per_in = run.n(75, 2500)
+    per_proc = run.n(3, 60)
     tasks = []
     # long tasks first
     for w in range(n_proc):
-        tasks.append(("machine", ("proc", common.worker_seed(run.seed, 50 + w), per_proc, run.n(7, 9),
+        tasks.append(("machine", ("proc", common.worker_seed(run.seed, 50 + w), per_proc, run.n(6, 9),
                                   os.path.join(run.scratch, "p%d" % w), open_ids, tabledir)))
     for w in range(n_in):
         tasks.append(("machine", ("inproc", common.worker_seed(run.seed, w), per_in, run.n(25, 40),
@@ -2279,6 +2691,8 @@ def main(run):
         tasks.append(("flip", (s, n_fl, run.tier, os.path.join(run.scratch, "f%d" % s), open_ids, tabledir)))
     tasks.append(("inject", (common.worker_seed(run.seed, 90), run.n(5000, 100000), os.path.join(run.scratch, "inj"))))
     tasks.append(("ident", ("proc", run.tier, os.path.join(run.scratch, "ip"), open_ids, tabledir)))
+    tasks.append(("ident", ("proc2", run.tier, os.path.join(run.scratch, "ip2"), open_ids, tabledir)))
+    tasks.append(("ident", ("dyn", run.tier, os.path.join(run.scratch, "id"), open_ids, tabledir)))
     tasks.append(("ident", ("inproc", run.tier, os.path.join(run.scratch, "ii"), open_ids, tabledir)))
     for s in range(n_tr):
         tasks.append(("trunc", (s, n_tr, run.tier, os.path.join(run.scratch, "t%d" % s), open_ids)))
@@ -2322,8 +2736,18 @@ def main(run):
             ("... through a re-pointed file link", tot("run-after-retarget:file", "not-newer-than-an-entry:cache-on"), 20),
             ("... same relative name from another working directory",
              tot("run-after-retarget:cwd", "not-newer-than-an-entry:cache-on"), 20),
-            ("fixed path-identity histories", h.get("ident-history:inproc", 0), 20),
-            ("fixed path-identity histories with child processes", h.get("ident-history:proc", 0), 2),
+            ("fixed path-identity histories", h.get("fixed-history:inproc", 0), 20),
+            ("fixed path-identity histories with child processes", h.get("fixed-history:proc", 0), 2),
+            ("fixed self-edit / spelling histories", h.get("fixed-history:dyn", 0), 40),
+            ("fixed overlap / self-edit / spelling histories with child processes", h.get("fixed-history:proc2", 0), 2),
+            ("runs during which the script rewrote or replaced its own source",
+             h.get("source-changed-during-run:rewrite", 0) + h.get("source-changed-during-run:replace", 0), 100),
+            ("cache-on runs right after the source changed during a run", tot("run-after-source-changed-during-run:", "cache-on"), 100),
+            ("... where the run that changed the source had written an entry (before its edit)",
+             h.get("entry-vs-edit-during-run:written-before", 0), 50),
+            ("overlapping child runs with an edit in between", tot("overlap:"), 1),
+            ("runs under a changed spelling of the script's path", tot("respell:"), 50),
+            ("edits to a body that observes the file name at every nesting depth", h.get("edit:deep", 0) + h.get("edit:deepraise", 0), 50),
             ("runs as a run-control file", h.get("via:rc", 0), 10),
             ("script runs over an entry with one damaged byte", tot("run:corrupt:flip", "cache-on"), 100),
             ("code runs over an entry with one damaged byte",
@@ -2347,9 +2771,16 @@ def main(run):
         "edits always give the source a strictly newer mtime than every existing cache entry (logical clock, whole "
         "seconds); replacing the source by different text with an *older or equal* mtime is outside the property",
         "every run starts from the same fresh namespace (xonsh's compilation is context-sensitive; varying the "
-        "namespace between the caching and the cached run is outside the property's quantifier); one history uses one "
-        "spelling of the script's name (absolute / relative to the working directory / with a `dir/..` detour over a "
-        "real directory), except that the import hook always works with the absolute path",
+        "namespace between the caching and the cached run is outside the property's quantifier); the script's name is "
+        "spelled absolute / relative to the working directory / with a `dir/..` detour over a real directory, the "
+        "spelling may change between runs (respell), and the import hook always works with the absolute path",
+        "a source that changes during a run changes through the running script itself (in-process tiers) or while a "
+        "child run waits at a known point (overlap); the edit gets a harness-clock mtime that is newer than every "
+        "entry that existed when the run started; an entry (re)written during that run is put before the edit on the "
+        "harness clock iff its real mtime is not later than the source's real ctime (a tie counts as before, and the "
+        "self-editing body pauses 5 ms after its edit so that a write after the run is not a tie on a file system "
+        "with coarse time stamps); a change that lands in the same time-stamp granule as the entry's own write is "
+        "outside the property (mtime comparison cannot see it)",
         "the uncached reference is compile_code + run_compiled_code applied to the current text (no cache code "
         "involved); bodies avoid the local variable names of run_script_with_cache, which leak into the compile "
         "context when loc is None",
